@@ -308,7 +308,7 @@ def irgen_cfg(r, target, types, ptr_size, idx):
            "size": r.choice([8, 14, 24, 36]), "n_funcs": 3, "blobs": not simple, "fptr": not simple,
            "shape": "mem" if r.random() < 0.15 else "ssa",
            "no_ops": (("/", "%", "*", "^") if immature else ("/", "%", "*")) if simple else (),
-           "unops": not (simple and immature), "externals": True, "undefined": r.random() < 0.2}
+           "unops": not (simple and immature), "externals": True, "undefined": r.random() < 0.2, "casts": True}
     return cfg, simple
 
 
